@@ -830,13 +830,20 @@ class ContractSet:
         path.ghost["inputs"] = dict(loc)
         for p, src in c.bind.items():
             path.ghost["inputs"][p] = sfr.locals[src]
+        # frame condition for containers that existed at entry: in-place updates are logged and must be covered by `modifies`
+        path.ghost["entry_ref_mark"] = path.next_ref
+        path.ghost["fn_log"] = []
+        I.write_log = path.ghost["fn_log"]
         try:
             coro = I.call_func(fv, args, kwargs)
             result = I.await_(coro)
         except PyRaise as e:
+            I.write_log = None
             self.old_vals = entry_olds
             self.finish_raise(I, c, e.exc, sfr)
             return
+        finally:
+            I.write_log = None
         self.old_vals = entry_olds
         self.finish_normal(I, c, result, sfr)
 
@@ -911,6 +918,18 @@ class ContractSet:
                     except Unsupported:
                         t = z3.BoolVal(False)
                     P.oblige(f"{c.target}.{tag}frame.{nm}.{f}", t, {"clause": f"{nm}.{f} unchanged"})
+        # containers (queues, lists, dicts, sets) of the input objects that were updated in place
+        mark = P.ghost.get("entry_ref_mark")
+        touched = {w[1] for w in P.ghost.get("fn_log", []) if w[0] == "cont" and mark is not None and w[1] < mark}
+        if touched:
+            for ref, o in list(P.heap.items()):
+                if o.kind == "inst" and o.meta.get("input"):
+                    nm = o.meta["name"]
+                    for f, v in o.meta["init_fields"].items():
+                        alts = v.alts if isinstance(v, VUnion) else [(None, v)]
+                        for _, x in alts:
+                            if isinstance(x, VRef) and x.ref in touched and not self.lvalue_matches(mods, nm, f) and f not in o.meta.get("undeclared", ()):
+                                P.oblige(f"{c.target}.{tag}frame.{nm}.{f}.contents", False, {"clause": f"contents of {nm}.{f} unchanged (updated in place)"})
         for (cq, attr), v0 in P.ghost.get("init_globals", {}).items():
             short = cq.split(".")[-1] + "." + attr
             if any(m in (short, cq + "." + attr) for m in mods):
